@@ -37,7 +37,10 @@ def to_fc(lm):
     """logical mesh -> fieldcompare.mesh.MeshFields (fresh arrays)"""
     from fieldcompare.mesh import Mesh, MeshFields
     pts = np.array(lm["points"], dtype=np.float64).reshape(len(lm["points"]), lm["dim"])
-    conn = [(celltype(t), np.array(rows, dtype=np.int64).reshape(len(rows), -1 if rows else (NCORNERS[t] or 0)))
+    # "conn_dtype" (optional): the integer type the connectivity arrays are stored with (default int64); a narrow type is
+    # legitimate as long as it can hold every index that occurs in a cell
+    cdt = NP_DT[lm["conn_dtype"]] if lm.get("conn_dtype") else np.int64
+    conn = [(celltype(t), np.array(rows, dtype=cdt).reshape(len(rows), -1 if rows else (NCORNERS[t] or 0)))
             for t, rows in lm["cells"]]
     mesh = Mesh(pts, conn)
     pd = {f["name"]: _values_array(f, len(lm["points"])) for f in lm["pf"]}
